@@ -224,7 +224,7 @@ func c03Eval(c core.Case) (res core.Result) {
 		res.Hash = core.Hash64(sql)
 		// the observation class carries the shape of the SQL, so that a ledgered leaf rendered in
 		// a *different* wrong way is a different signature
-		cls += " => " + sqlShape(sql)
+		cls += " => " + predShape(rd.Pred)
 		pr := sqlref.NewProbe()
 		pr.AddLeaf(l)
 		for _, row := range pr.Rows(fieldTypes, 4000) {
@@ -309,6 +309,27 @@ func c03Eval(c core.Case) (res core.Result) {
 		}
 	}
 	return
+}
+
+// predShape prints the predicate PostgreSQL's grammar read, with constants abstracted (N, S): it
+// does not depend on whitespace or redundant parentheses in the SQL text.
+func predShape(n *sqlref.Node) string {
+	switch n.Kind {
+	case sqlref.KCol:
+		return "col"
+	case sqlref.KConst:
+		if n.Const.IsNum {
+			return "N"
+		}
+		return "S"
+	case sqlref.KParam:
+		return "?"
+	}
+	var parts []string
+	for _, k := range n.Kids {
+		parts = append(parts, predShape(k))
+	}
+	return n.Kind + n.Op + "(" + strings.Join(parts, ",") + ")"
 }
 
 var (
